@@ -5,7 +5,7 @@ import os
 import shutil
 import sys
 
-OUTS = [("/tmp/out", ""), ("/tmp/out2", "2"), ("/tmp/out3", "3")]   # (directory, prefix of the change letter): round 1, round 2
+OUTS = [("/tmp/out", ""), ("/tmp/out2", "2"), ("/tmp/out3", "3"), ("/tmp/out4", "4")]   # (directory, prefix of the change letter): round 1, round 2
 DST = os.path.join(os.path.dirname(os.path.dirname(os.path.abspath(__file__))), "seeded")
 # neutralised by a genuine-defect repair (the demo passes with the patch applied to the repaired tree): not kept
 DROPPED = {("C02", "A"), ("C19", "A")}
@@ -30,6 +30,8 @@ for OUT, PREFIX in OUTS:
         old = json.load(open(meta_path)) if os.path.exists(meta_path) else {}
         os.makedirs(dst, exist_ok=True)
         for f in ("patch.diff", "demo.py", "notes.md"):
+            if f == "patch.diff" and old.get("rebased"):
+                continue        # the kept patch was rebased onto a repaired tree by hand (see meta.json "rebased")
             if os.path.exists(os.path.join(d, f)):
                 shutil.copy(os.path.join(d, f), os.path.join(dst, f))
         if (pid, PREFIX + x) in REBASED and os.path.exists(os.path.join(d, REBASED[(pid, PREFIX + x)])):
@@ -49,6 +51,8 @@ for OUT, PREFIX in OUTS:
             },
             "detected_by": old.get("detected_by", "not yet run"),
         }
+        if old.get("rebased"):
+            meta["rebased"] = old["rebased"]
         if (pid, PREFIX + x) in ALSO_RUN:
             meta["also_run"] = ALSO_RUN[(pid, PREFIX + x)]
         json.dump(meta, open(meta_path, "w"), indent=1)
